@@ -11,8 +11,12 @@ def C(ty, v):
     return ("c", ty, v)
 
 
+NAN = float("nan")   # the one NaN object: tuple equality tests identity before ==, so terms holding *this* NaN compare equal to themselves
+
+
 def cf(v):
-    return ("c", "f64", float(v))
+    v = float(v)
+    return ("c", "f64", NAN if v != v else v)
 
 
 def cu(v):
@@ -199,6 +203,8 @@ def fmt_f(v):
     if isinstance(v, float):
         if math.isinf(v):
             return "inf" if v > 0 else "-inf"
+        if math.isnan(v):
+            return "NaN"
         if v == int(v) and abs(v) < 1e15:
             return "%d.0" % int(v)
         return repr(v)
